@@ -142,6 +142,26 @@ def c10_entry(tier, replay):
         return 2
     return 1 if (rc1 or rc2) else 0
 
+def c03_entry(tier, replay):
+    from . import c03mod, c03purge
+    if replay:
+        if replay.endswith(".modhist"):
+            return c03mod.run(tier, replay)
+        if replay.endswith(".purge"):
+            return c03purge.run(tier, replay)
+        return l1check.replay("C03", replay)
+    rc1 = l1check.run("C03", tier, L1["C03"])
+    if rc1 == 2:
+        return 2
+    rc2 = c03purge.run(tier, None, merge=True)
+    if rc2 == 2:
+        return 2
+    rc3 = c03mod.run(tier, None, merge=True)
+    if rc3 == 2:
+        return 2
+    return 1 if (rc1 or rc2 or rc3) else 0
+
+CHECKS["C03"] = c03_entry
 CHECKS["C10"] = c10_entry
 CHECKS["C13"] = c13_entry
 CHECKS["C01"] = c01_entry("C01", False)
